@@ -55,6 +55,14 @@ V("c08-worker-swaps-pointing-slots", "C08", "violation", "C08.R4", edits=[(TE, '
 V("c08-obs-routed-by-sensor", "C08", "violation", "C08.R4", edits=[(SC, "obs_dict[observation.target_id].append(observation)", "obs_dict[observation.sensor_id].append(observation)")])
 V("c08-merge-misses-as-observations", "C08", "violation", "C08.R4", edits=[(TE, "self._registrant.saveMissedObservations(results.missed_observations)", "self._registrant.saveMissedObservations(results.observations)")])
 V("c08-reward-row-from-sensor-count", "C08", "violation", "C08.R1", edits=[("parallel/tasking_reward_generation.py", "row = self._registrant.target_list.index(results.estimate_id)", "row = len(results.visibility) - 1")])
+V("c08-job-guard-truthy-indices", "C08", "violation", "C08.R6", edits=[(CE, "                if len(tasked_sensor_indices) > 0:", "                if tasked_sensor_indices.any():")])
+V("c08-job-guard-min-two", "C08", "violation", "C08.R6", edits=[(CE, "                if len(tasked_sensor_indices) > 0:", "                if len(tasked_sensor_indices) > 1:")])
+V("c08-job-target-of-other-row", "C08", "violation", "C08.R6", edits=[(CE, "                            self._estimate_store[target_id],\n                            self._target_store,", "                            self._estimate_store[self.target_list[0]],\n                            self._target_store,")])
+V("c08-job-first-sensor-only", "C08", "violation", "C08.R6", edits=[(CE, "[self._sensor_store[sensor_id] for sensor_id in tasked_sensor_ids],", "[self._sensor_store[sensor_id] for sensor_id in tasked_sensor_ids[:1]],")])
+V("c08-job-column-of-matrix", "C08", "violation", "C08.R6", edits=[(CE, "where(self.decision_matrix[target_index, :])[0]", "where(self.decision_matrix[:, target_index])[0]")])
+V("c08-n-job-flatnonzero-size", "C08", "pass", edits=[(CE, "                tasked_sensor_indices = where(self.decision_matrix[target_index, :])[0]\n                if len(tasked_sensor_indices) > 0:", "                tasked_sensor_indices = flatnonzero(self.decision_matrix[target_index])\n                if tasked_sensor_indices.size > 0:"), (CE, "from numpy import array, where, zeros", "from numpy import array, flatnonzero, zeros")])
+V("c08-n-job-mask-any", "C08", "pass", edits=[(CE, "                if len(tasked_sensor_indices) > 0:", "                if self.decision_matrix[target_index, :].any():")])
+V("c08-n-job-continue-form", "C08", "pass", edits=[(CE, "                if len(tasked_sensor_indices) > 0:", "                if len(tasked_sensor_indices) != 0:")])
 V("c08-n-extend-as-iadd", "C08", "pass", edits=[(EB, "        self._observations.extend(observations)\n", "        self._observations += observations\n")])
 V("c08-n-changes-via-update", "C08", "pass", edits=[(EB, "        for sensor_info in sensor_info_list:\n            self.sensor_changes[sensor_info[\"sensor_id\"]] = {\n                \"boresight\": sensor_info[\"boresight\"],\n                \"time_last_tasked\": sensor_info[\"time_last_tasked\"],\n            }\n", "        for sensor_info in sensor_info_list:\n            entry = {\n                \"boresight\": sensor_info[\"boresight\"],\n                \"time_last_tasked\": sensor_info[\"time_last_tasked\"],\n            }\n            self.sensor_changes[sensor_info[\"sensor_id\"]] = entry\n")])
 V("c08-n-items-loop", "C08", "pass", edits=[(SC, "                for sensor_change in tasking_engine.sensor_changes:\n                    self.sensor_agents[sensor_change].updateInfo(\n                        tasking_engine.sensor_changes[sensor_change],\n                    )\n", "                for sensor_change, change in tasking_engine.sensor_changes.items():\n                    self.sensor_agents[sensor_change].updateInfo(change)\n")])
@@ -558,6 +566,20 @@ for _name in sorted(_os.listdir(_NEUTRAL)) if _os.path.isdir(_NEUTRAL) else []:
         continue
     _meta = _json.load(open(_mp))
     V(f"neutral-{_name}", "ALL", _meta.get("expect", "pass"), patch=f"neutral/{_name}/patch.diff", note="behaviour-preserving refactoring from a sub-agent; every property's check must stay quiet")
+
+# ------------------------------------------------------------------------------------ memo soundness / cache coherence
+RED = "physics/transforms/reductions.py"
+_RED_OLD = "        if not eops:\n            eops = getEarthOrientationParameters(utc_date.date())\n\n        polar_motion = PolarMotion(eops.x_p, eops.y_p)\n        prec_nut = PrecessionNutation(\n            utc_date,"
+_RED_RET_OLD = "        rot_pnr = matmul(prec_nut.rot_pn, rot_pef2tod)\n\n        return cls(\n            rot_pn=prec_nut.rot_pn,\n            rot_pnr=rot_pnr,\n            rot_rnp=rot_pnr.T,\n            rot_w=polar_motion.rot_w,\n            rot_wt=polar_motion.rot_w.T,\n            lod=eops.length_of_day,\n            eq_equinox=prec_nut.eq_equinox,\n            dut1=eops.delta_ut1,\n            date_time=utc_date,\n        )\n\n\ndef getRotR"
+_RED_RET_NEW = "        rot_pnr = matmul(prec_nut.rot_pn, rot_pef2tod)\n\n        built = cls(\n            rot_pn=prec_nut.rot_pn,\n            rot_pnr=rot_pnr,\n            rot_rnp=rot_pnr.T,\n            rot_w=polar_motion.rot_w,\n            rot_wt=polar_motion.rot_w.T,\n            lod=eops.length_of_day,\n            eq_equinox=prec_nut.eq_equinox,\n            dut1=eops.delta_ut1,\n            date_time=utc_date,\n        )\n        ReductionParams._latest = (eops, built)\n        return built\n\n\ndef getRotR"
+V("c04-n-memo-exact-key", "C04", "pass", edits=[(RED, _RED_OLD, "        if not eops:\n            eops = getEarthOrientationParameters(utc_date.date())\n\n        if ReductionParams._latest is not None and ReductionParams._latest[0] is eops and utc_date == ReductionParams._latest[1].date_time:\n            return ReductionParams._latest[1]\n\n        polar_motion = PolarMotion(eops.x_p, eops.y_p)\n        prec_nut = PrecessionNutation(\n            utc_date,"), (RED, _RED_RET_OLD, _RED_RET_NEW), (RED, '    date_time: datetime\n    """The ``datetime`` object that these reduction parameters are valid for."""\n', '    date_time: datetime\n    """The ``datetime`` object that these reduction parameters are valid for."""\n\n    _latest = None\n')])
+V("c04-memo-by-minute", "C04", "violation", "C04.R11", edits=[(RED, _RED_OLD, "        if not eops:\n            eops = getEarthOrientationParameters(utc_date.date())\n\n        if ReductionParams._latest is not None and ReductionParams._latest[0] is eops and utc_date.replace(second=0, microsecond=0) == ReductionParams._latest[1].date_time.replace(second=0, microsecond=0):\n            return ReductionParams._latest[1]\n\n        polar_motion = PolarMotion(eops.x_p, eops.y_p)\n        prec_nut = PrecessionNutation(\n            utc_date,"), (RED, _RED_RET_OLD, _RED_RET_NEW), (RED, '    date_time: datetime\n    """The ``datetime`` object that these reduction parameters are valid for."""\n', '    date_time: datetime\n    """The ``datetime`` object that these reduction parameters are valid for."""\n\n    _latest = None\n')])
+V("c04-memo-ignores-eops", "C04", "violation", "C04.R11", edits=[(RED, _RED_OLD, "        if not eops:\n            eops = getEarthOrientationParameters(utc_date.date())\n\n        if ReductionParams._latest is not None and utc_date == ReductionParams._latest[1].date_time:\n            return ReductionParams._latest[1]\n\n        polar_motion = PolarMotion(eops.x_p, eops.y_p)\n        prec_nut = PrecessionNutation(\n            utc_date,"), (RED, _RED_RET_OLD, _RED_RET_NEW), (RED, '    date_time: datetime\n    """The ``datetime`` object that these reduction parameters are valid for."""\n', '    date_time: datetime\n    """The ``datetime`` object that these reduction parameters are valid for."""\n\n    _latest = None\n')])
+_JD_OLD = "        return self._time.convertToJulianDate(self.julian_date_start)\n\n    @property\n    def datetime_epoch"
+_JD_NEW = "        if self._jd_cache is None:\n            self._jd_cache = self._time.convertToJulianDate(self.julian_date_start)\n        return self._jd_cache\n\n    @property\n    def datetime_epoch"
+_INIT = ("agents/agent_base.py", "        self._time = clock.time\n", "        self._time = clock.time\n        self._jd_cache = None\n")
+V("c09-jd-cache-setter-only", "C09", "violation", "C09.R10", edits=[("agents/agent_base.py", _JD_OLD, _JD_NEW), _INIT, ("agents/agent_base.py", "        self._time = new_time\n", "        self._time = new_time\n        self._jd_cache = None\n")])
+V("c09-n-jd-cache-coherent", "C09", "pass", edits=[("agents/agent_base.py", _JD_OLD, _JD_NEW), _INIT, ("agents/agent_base.py", "        self._time = new_time\n", "        self._time = new_time\n        self._jd_cache = None\n"), ("agents/target_agent.py", "        self._time = JulianDate(ephemeris.julian_date).convertToScenarioTime(\n            self.julian_date_start,\n        )\n", "        self.time = JulianDate(ephemeris.julian_date).convertToScenarioTime(\n            self.julian_date_start,\n        )\n"), ("agents/sensing_agent.py", "        self._time = JulianDate(ephemeris.julian_date).convertToScenarioTime(\n            self.julian_date_start,\n        )\n", "        self._time = JulianDate(ephemeris.julian_date).convertToScenarioTime(\n            self.julian_date_start,\n        )\n        self._jd_cache = None\n")])
 
 # ------------------------------------------------------------------------------------ shared spherical-model rule under C02 / C20
 V("c02-az-sign-lost", "C02", "violation", "C02.R11", edits=[("physics/measurements.py", "        azimuth = arctan2(slant_range_sez[1], -1.0 * slant_range_sez[0])", "        azimuth = arctan2(slant_range_sez[1], slant_range_sez[0])")])
